@@ -404,6 +404,25 @@ func checkC14(c ContractCase, r *rec.Rec) error {
 	if c.Color {
 		cls = append(cls, "color")
 	}
+	// 3b. the same file named twice: what the library gives for (a, a), also with -o
+	{
+		wantSame := c.libDiff(aText, aText)
+		resS := runCLI(bin, append(append([]string{}, flags...), "a", "a"), nil, dir)
+		if err := cliTrouble(resS); err != nil {
+			return err
+		}
+		if resS.Status != wantSame.status || (wantSame.status != 2 && resS.Stdout != wantSame.out) {
+			return viol("%s a a (the same file twice): status %d and %q, the library gives status %d and %q", c.Bin+" "+strings.Join(flags, " "), resS.Status, resS.Stdout, wantSame.status, wantSame.out)
+		}
+		writeFile(dir, "sameout", strings.Repeat("stale content of an earlier run\n", 50))
+		resSo := runCLI(bin, append(append([]string{"-o=sameout"}, flags...), "a", "a"), nil, dir)
+		if err := cliTrouble(resSo); err != nil {
+			return err
+		}
+		if wantSame.status != 2 && (resSo.Status != wantSame.status || resSo.Stdout != "" || readFileOr(dir, "sameout") != wantSame.out) {
+			return viol("%s -o a a (the same file twice): status %d, stdout %q, file %q; expected status %d and %q in the file only", c.Bin+" "+strings.Join(flags, " "), resSo.Status, resSo.Stdout, readFileOr(dir, "sameout"), wantSame.status, wantSame.out)
+		}
+	}
 	// 4. the printed diff, applied with -p, reproduces b
 	if want.status != 2 && !c.Color {
 		writeFile(dir, "d", res.Stdout)
@@ -698,6 +717,36 @@ func genC14(t *rapid.T) ContractCase {
 			c.TrIn = val.JSON(c16Doc(t))
 		default:
 			c.TrIn = ref.YAMLEmit(c16Doc(t))
+		}
+		if gen.Chance(t, "integerKeyPath", 12) && (c.Tr == "jd2patch" || c.Tr == "patch2jd") {
+			// a hunk below an object key spelled like an integer
+			k := gen.Pick(t, "intKey", []string{"0", "1", "01", "-1", "+1", "10"})
+			ia, ib := map[string]val.V{k: []val.V{1.0, 2.0}, "z": 0.0}, map[string]val.V{k: []val.V{1.0, 3.0}, "z": 0.0}
+			if gen.Chance(t, "scalarMember", 50) {
+				ia[k], ib[k] = 1.0, 2.0
+			}
+			if c.Bin == "jd-top-v1" {
+				d := v1Node(val.JSON(ia)).Diff(v1Node(val.JSON(ib)))
+				if c.Tr == "jd2patch" {
+					c.TrIn = d.Render()
+				} else {
+					c.TrIn, _ = d.RenderPatch()
+				}
+			} else if c.Tr == "jd2patch" {
+				c.TrIn = jdx.Node(ia).Diff(jdx.Node(ib)).Render()
+			}
+		}
+		if gen.Chance(t, "emptyTranslation", 10) {
+			// inputs whose translation is the empty text or the empty patch
+			switch c.Tr {
+			case "merge2jd":
+				c.TrIn = "{}"
+			case "patch2jd":
+				c.TrIn = "[]"
+			case "jd2patch", "jd2merge", "json2yaml", "yaml2json":
+				c.TrIn = ""
+			}
+			return c
 		}
 		if gen.Chance(t, "broken", 12) {
 			c.TrIn = mutateText(t, c.TrIn)
